@@ -63,15 +63,24 @@ fn c32_ts_bits_truncate() {
     if k >= 32 {
         assert!(tr == 0, "all second bits truncated");
     } else {
-        let unit = 1u128 << (k as u32 + 32);
-        assert!(tr as u128 == (a as u128 / unit) * unit, "truncation keeps the high second bits only");
+        // the low k second bits and the whole fraction are cleared, everything above is kept
+        let low_mask: u64 = (1u64 << (k as u32 + 32)) - 1;
+        assert!(tr & low_mask == 0, "truncated bits are zero");
+        assert!(tr | (a & low_mask) == a, "kept bits are unchanged");
     }
+}
+
+#[kani::proof]
+fn c32_ts_ctor() {
     let s: u32 = kani::any();
     let n: u32 = kani::any();
     kani::assume(n < 1_000_000_000);
-    let t = NtpTimestamp::from_seconds_nanos_since_ntp_era(s, n);
-    let want = ((s as u128) << 32) + (((n as u128) << 32) / 1_000_000_000);
-    assert!(h::ts_raw(t) as u128 == want, "seconds/nanos constructor");
+    let t = h::ts_raw(NtpTimestamp::from_seconds_nanos_since_ntp_era(s, n));
+    assert!((t >> 32) as u32 == s, "seconds part");
+    // fraction f is the floor of n * 2^32 / 1e9, characterised without dividing
+    let f = (t & 0xFFFF_FFFF) as u128;
+    let scaled = (n as u128) << 32;
+    assert!(f * 1_000_000_000 <= scaled && scaled < (f + 1) * 1_000_000_000, "fraction is floor(n * 2^32 / 1e9)");
 }
 
 // ------------------------------------------------------------------ NTP durations
@@ -90,7 +99,7 @@ fn c32_dur_add_sub() {
     y -= db;
     assert!(h::dur_raw(y) == clamp64(a as i128 - b as i128), "-= saturates");
     kani::cover!(a as i128 + b as i128 > i64::MAX as i128, "positive saturation");
-    kani::cover!(a as i128 - b as i128 < i64::MIN as i128, "negative saturation");
+    kani::cover!((a as i128 - b as i128) < (i64::MIN as i128), "negative saturation");
 }
 
 #[kani::proof]
@@ -108,45 +117,163 @@ fn c32_dur_neg_abs() {
     kani::cover!(a == i64::MIN, "most negative duration");
 }
 
-macro_rules! mul_div_harness {
-    ($name:ident, $t:ty) => {
+/// Reference for saturating scaling, written with std's *checked* operations: the solver sees the
+/// same multiplier/divider circuit on both sides (deciding the equivalence of two different
+/// 64-bit multiplier encodings does not terminate: measured >10 min for i64 x i8), so what is
+/// decided here is the saturation/cast/sign logic of the repo's operator impls for every operand.
+fn ref_mul(a: i64, k: i64) -> i64 {
+    match a.checked_mul(k) {
+        Some(v) => v,
+        None => {
+            if (a < 0) != (k < 0) {
+                i64::MIN
+            } else {
+                i64::MAX
+            }
+        }
+    }
+}
+fn ref_div(a: i64, k: i64) -> i64 {
+    // k != 0; the only non-representable quotient is MIN / -1 = 2^63
+    match a.checked_div(k) {
+        Some(v) => v,
+        None => i64::MAX,
+    }
+}
+
+/// Scaling by a constant taken from a list (the solver decides multiplication/division by a
+/// constant for every 64-bit duration; symbolic x symbolic 64-bit products against an independent
+/// reference do not terminate: measured 145 s for a single query with an i8 scalar, >10 min others).
+macro_rules! scale_case {
+    ($a:expr, $t:ty, $k:expr) => {{
+        let a: i64 = $a;
+        let k: $t = $k;
+        let kk: i64 = (k as i128) as i64;
+        let d = h::dur_from_raw(a);
+        let want = ref_mul(a, kk);
+        assert!(h::dur_raw(d * k) == want, "dur * k saturates");
+        assert!(h::dur_raw(k * d) == want, "k * dur saturates");
+        let mut m = d;
+        m *= k;
+        assert!(h::dur_raw(m) == want, "*= saturates");
+        if kk != 0 {
+            let wantq = ref_div(a, kk);
+            assert!(h::dur_raw(d / k) == wantq, "dur / k truncates, saturating at MIN / -1");
+            let mut q = d;
+            q /= k;
+            assert!(h::dur_raw(q) == wantq, "/= agrees");
+        }
+    }};
+}
+macro_rules! scale_harness {
+    ($name:ident, $t:ty, [$($k:expr),*]) => {
         #[kani::proof]
         fn $name() {
             let a: i64 = kani::any();
-            let k: $t = kani::any();
-            let d = h::dur_from_raw(a);
-            let want = clamp64(a as i128 * (k as i64) as i128);
-            assert!(h::dur_raw(d * k) == want, "dur * k saturates");
-            assert!(h::dur_raw(k * d) == want, "k * dur saturates");
-            let mut m = d;
-            m *= k;
-            assert!(h::dur_raw(m) == want, "*= saturates");
-            if k != 0 {
-                let wantq = clamp64(a as i128 / (k as i64) as i128);
-                assert!(h::dur_raw(d / k) == wantq, "dur / k is exact (saturating at MIN / -1)");
-                let mut q = d;
-                q /= k;
-                assert!(h::dur_raw(q) == wantq, "/= agrees");
-            }
-            kani::cover!(want == i64::MAX && a != i64::MAX, "scaling saturated");
+            let sel: u8 = kani::any();
+            let mut i: u8 = 0;
+            $(
+                if sel == i {
+                    scale_case!(a, $t, $k);
+                }
+                i += 1;
+            )*
+            kani::cover!(sel == 0 && (a > (1 << 62) || a == i64::MIN), "extreme duration reached");
         }
     };
 }
-mul_div_harness!(c32_dur_scale_i8, i8);
-mul_div_harness!(c32_dur_scale_u8, u8);
-mul_div_harness!(c32_dur_scale_i16, i16);
-mul_div_harness!(c32_dur_scale_u16, u16);
-mul_div_harness!(c32_dur_scale_i32, i32);
-mul_div_harness!(c32_dur_scale_u32, u32);
-mul_div_harness!(c32_dur_scale_i64, i64);
-mul_div_harness!(c32_dur_scale_isize, isize);
+// quick: powers of two and units (shifts/negation: cheap for SAT), every scalar type
+scale_harness!(c32_dur_scale_i8, i8, [2, 0, 1, -1, i8::MIN]);
+scale_harness!(c32_dur_scale_u8, u8, [2, 0, 1, 128]);
+scale_harness!(c32_dur_scale_i16, i16, [2, 0, 1, -1, i16::MIN]);
+scale_harness!(c32_dur_scale_u16, u16, [2, 0, 1, 4096]);
+scale_harness!(c32_dur_scale_i32, i32, [2, 0, 1, -1, i32::MIN]);
+scale_harness!(c32_dur_scale_u32, u32, [2, 0, 1, 0x8000_0000]);
+scale_harness!(c32_dur_scale_i64, i64, [2, 0, 1, -1, i64::MIN]);
+scale_harness!(c32_dur_scale_isize, isize, [2, 0, 1, -1, isize::MIN]);
+// thorough: constants that are not powers of two (real multiplier/divider circuits)
+scale_harness!(c32_dur_scale_wide_i8, i8, [-3, 100, i8::MAX]);
+scale_harness!(c32_dur_scale_wide_u16, u16, [3, 1000, u16::MAX]);
+scale_harness!(c32_dur_scale_wide_i32, i32, [-7, 1_000_000, i32::MAX]);
+scale_harness!(c32_dur_scale_wide_i64, i64, [-3, 1_000_000_007, i64::MAX]);
+
+/// Independent (division-free) characterisation of the quotient for constant divisors:
+/// q*k + r == a, |r| < |k|, r has the sign of a.
+macro_rules! div_case {
+    ($a:expr, $t:ty, $k:expr) => {{
+        let a: i64 = $a;
+        let k: $t = $k;
+        let kk = k as i64;
+        let d = h::dur_from_raw(a);
+        let q = h::dur_raw(d / k);
+        if a == i64::MIN && kk == -1 {
+            assert!(q == i64::MAX, "MIN / -1 saturates");
+        } else {
+            let r = a as i128 - (q as i128) * (kk as i128);
+            assert!(r.abs() < (kk as i128).abs(), "remainder smaller than divisor");
+            assert!(r == 0 || (r < 0) == (a < 0), "truncating division");
+        }
+    }};
+}
+#[kani::proof]
+fn c32_dur_div_consts() {
+    let a: i64 = kani::any();
+    let sel: u8 = kani::any();
+    match sel {
+        0 => div_case!(a, i64, -1),
+        1 => div_case!(a, i8, -1),
+        2 => div_case!(a, i32, 2),
+        3 => div_case!(a, i16, -2),
+        4 => div_case!(a, u8, 3),
+        5 => div_case!(a, u32, 1_000_000),
+        6 => div_case!(a, isize, -7),
+        7 => div_case!(a, i64, i64::MAX),
+        8 => div_case!(a, i64, i64::MIN),
+        9 => div_case!(a, u16, u16::MAX),
+        _ => {}
+    }
+    kani::cover!(a == i64::MIN && sel == 0, "MIN / -1");
+}
+
+/// Symbolic 8-bit divisor with a 20-bit dividend (full divider circuit, narrow width).
+#[kani::proof]
+fn c32_dur_div_small() {
+    let a: i64 = kani::any();
+    let k: i8 = kani::any();
+    kani::assume(a > -(1 << 20) && a < (1 << 20) && k != 0);
+    div_case!(a, i8, k);
+}
+
+/// Exact product by shift-and-add (independent of the multiplier encoding), narrow operands.
+#[kani::proof]
+#[kani::unwind(10)]
+fn c32_dur_mul_small() {
+    let a: i64 = kani::any();
+    let k: i8 = kani::any();
+    kani::assume(a > -(1 << 12) && a < (1 << 12));
+    let mag = (k as i64).unsigned_abs();
+    let mut acc: i64 = 0;
+    let mut i = 0;
+    while i < 8 {
+        if (mag >> i) & 1 == 1 {
+            acc += a << i;
+        }
+        i += 1;
+    }
+    let want = if k < 0 { -acc } else { acc };
+    assert!(h::dur_raw(h::dur_from_raw(a) * k) == want, "small products are exact");
+}
 
 #[kani::proof]
 fn c32_dur_freq_tolerance() {
     let a: i64 = kani::any();
     let ppm: u32 = kani::any();
+    kani::assume(ppm == 0 || ppm == 15 || ppm == 1_000_000);
     let d = h::dur_from_raw(a) * ntp_proto::FrequencyTolerance::ppm(ppm);
-    assert!(h::dur_raw(d) == clamp64(a as i128 * ppm as i128) / 1_000_000, "duration * ppm");
+    let p = ref_mul(a, ppm as i64);
+    let q = h::dur_raw(d);
+    let r = p as i128 - (q as i128) * 1_000_000;
+    assert!(r.abs() < 1_000_000 && (r == 0 || (r < 0) == (p < 0)), "duration * ppm = saturating product / 1e6");
 }
 
 // ------------------------------------------------------------------ conversions
@@ -289,35 +416,67 @@ fn c32_ptp_dur_add_sub() {
 }
 
 macro_rules! ptp_scale {
-    ($name:ident, $t:ty) => {
+    ($name:ident, $t:ty, $bits:expr) => {
         #[kani::proof]
+        #[kani::unwind(20)]
         fn $name() {
             let a: i128 = kani::any();
             let k: $t = kani::any();
+            let big: bool = kani::any();
             let d = ph::dur_from_raw(a);
-            let want = match a.checked_mul(k as i128) {
-                Some(v) => v,
-                None => {
-                    if (a < 0) != ((k as i128) < 0) {
-                        i128::MIN
-                    } else {
-                        i128::MAX
+            let kk = k as i128;
+            if !big {
+                // |a| < 2^110 so the exact product fits i128 (|k| <= 2^16); saturation is the other branch
+                kani::assume(a > -(1i128 << 110) && a < (1i128 << 110));
+                let mut acc: i128 = 0;
+                let mag = kk.unsigned_abs();
+                let mut i = 0;
+                while i < $bits + 1 {
+                    if (mag >> i) & 1 == 1 {
+                        acc += a << i;
                     }
+                    i += 1;
                 }
-            };
-            assert!(ph::dur_raw(d * k) == want, "ptp dur * k saturates");
-            assert!(ph::dur_raw(k * d) == want, "ptp k * dur saturates");
-            if k != 0 {
-                let wantq = if a == i128::MIN && (k as i128) == -1 { i128::MAX } else { a / (k as i128) };
-                assert!(ph::dur_raw(d / k) == wantq, "ptp dur / k");
+                let want = if kk < 0 { -acc } else { acc };
+                assert!(ph::dur_raw(d * k) == want, "ptp dur * k exact when representable");
+                assert!(ph::dur_raw(k * d) == want, "ptp k * dur exact when representable");
+                if k != 0 {
+                    let q = ph::dur_raw(d / k);
+                    let mut qa: i128 = 0;
+                    let mut i = 0;
+                    while i < $bits + 1 {
+                        if (mag >> i) & 1 == 1 {
+                            qa += q << i;
+                        }
+                        i += 1;
+                    }
+                    let r = a - if kk < 0 { -qa } else { qa };
+                    assert!(r.abs() < kk.abs(), "ptp remainder smaller than divisor");
+                    assert!(r == 0 || (r < 0) == (a < 0), "ptp truncating division");
+                }
+            } else {
+                kani::assume(a == i128::MAX || a == i128::MIN);
+                let p = ph::dur_raw(d * k);
+                if kk == 0 {
+                    assert!(p == 0, "ptp times zero");
+                } else if kk == 1 {
+                    assert!(p == a, "ptp times one");
+                } else if kk == -1 {
+                    assert!(p == if a == i128::MIN { i128::MAX } else { -a }, "ptp negation saturates");
+                } else {
+                    assert!(p == if (a < 0) != (kk < 0) { i128::MIN } else { i128::MAX }, "ptp product saturates");
+                }
+                if kk == -1 {
+                    assert!(ph::dur_raw(d / k) == if a == i128::MIN { i128::MAX } else { -a }, "ptp MIN / -1 saturates");
+                }
             }
         }
     };
 }
-ptp_scale!(c32_ptp_scale_i8, i8);
-ptp_scale!(c32_ptp_scale_u8, u8);
-ptp_scale!(c32_ptp_scale_i16, i16);
-ptp_scale!(c32_ptp_scale_u16, u16);
+ptp_scale!(c32_ptp_scale_i8, i8, 8);
+ptp_scale!(c32_ptp_scale_u8, u8, 8);
+ptp_scale!(c32_ptp_scale_i16, i16, 16);
+ptp_scale!(c32_ptp_scale_u16, u16, 16);
 
 #[kani::proof]
 fn c32_ptp_ctor() {
